@@ -227,7 +227,7 @@ func (vc *VC) applyContractOn(callee *ssa.Function, args []Term, preIn *Heap, r 
 			a0 := vc.get(pre, "$alloc")
 			for _, comp := range sortedKeys(ms.Old) {
 				s, ok := vc.compSort[comp]
-				if !ok {
+				if !ok || isGhostComp(comp) {
 					continue
 				}
 				nw, od := vc.get(post, comp), vc.get(pre, comp)
@@ -753,7 +753,8 @@ func (vc *VC) panicPath(h *Heap, reach string, ms *ModSet) {
 }
 
 // ownerOf traces a function value back to the struct it was loaded from:
-//   fv = m[k]  with  m = *(&x.field)      or      fv = *(&x.field)
+//
+//	fv = m[k]  with  m = *(&x.field)      or      fv = *(&x.field)
 func (vc *VC) ownerOf(v ssa.Value) (Term, bool) {
 	if lk, ok := v.(*ssa.Lookup); ok {
 		v = lk.X
